@@ -3,6 +3,7 @@
 From Coq Require Import List ZArith Lia.
 From Tevec Require Import Base.Prelude Model.Parse Spec.DurationC18 Proofs.Parse.
 From Tevec Require Import Spec.CalendarC18 Model.ParseDT Proofs.CalendarC18 Proofs.ParseDT.
+From Tevec Require Import Proofs.ParseRejects Proofs.ParseWs Proofs.ParseDT2.
 Import ListNotations.
 Local Open Scope Z_scope.
 
@@ -58,6 +59,60 @@ Example C18_former_panics_are_errors :
   parse [52;50;57;52;57;54;55;50;57;55;109;111] = PErr.   (* "4294967297mo" *)
 Proof. vm_compute. repeat split. Qed.
 
+(* (2') the converse of (2): every string the scanner ACCEPTS is a sequence of well-formed terms followed by
+       a degenerate tail (nothing, or one arbitrary character followed by digits only: "12", "d", "1d2", "1d "),
+       and the value returned is the sum of those terms — the scanner never accepts a string with another
+       meaning.  `tail_ok` / `in_language` are defined in Proofs/ParseRejects.v.                     *)
+Theorem C18_parse_accepts_grammar :
+  forall (s : str) (m ns : Z), parse s = POk m ns ->
+    exists (ts : list term) (tail : str),
+      s = render_terms ts ++ tail /\ Forall wf_term ts /\ tail_ok ts tail /\
+      m = sumf t_months ts /\ ns = fixed_ns ts.
+Proof. exact parse_accepts_grammar. Qed.
+
+(* ... contrapositive: a string outside that language is rejected with Err (never a panic: (1)) *)
+Theorem C18_parse_rejects : forall s : str, ~ in_language s -> parse s = PErr.
+Proof. exact parse_not_in_language_err. Qed.
+
+(* the empty string and the degenerate tail alone are accepted as the zero duration *)
+Theorem C18_parse_empty_and_tail_only :
+  parse [] = POk 0 0 /\ (forall c ds, Forall (fun d => is_digit d = true) ds -> parse (c :: ds) = POk 0 0).
+Proof. split; [exact parse_empty | exact parse_tail_only]. Qed.
+
+(* a first character that is neither a sign nor a digit is rejected unless digits only follow ("a1d", " 1d") *)
+Theorem C18_parse_bad_head_rejected :
+  forall c r, is_digit c = false -> c <> 43 -> c <> 45 -> ~ Forall (fun d => is_digit d = true) r ->
+    parse (c :: r) = PErr.
+Proof. exact parse_bad_head_rejected. Qed.
+
+(* white space (char::is_whitespace, the class chrono trims) is never consulted by the scanner and belongs
+   to no term: in an accepted string it can only be followed by digits up to the end; anywhere else — leading
+   (" 1d"), between terms ("1d 2h") — the string is rejected *)
+Theorem C18_parse_whitespace_position :
+  forall s m ns, parse s = POk m ns ->
+    forall pre c post, s = pre ++ c :: post -> is_ws c = true -> Forall (fun d => is_digit d = true) post.
+Proof. exact parse_ws_position. Qed.
+Theorem C18_parse_whitespace_rejected :
+  forall pre c post, is_ws c = true -> ~ Forall (fun d => is_digit d = true) post ->
+    parse (pre ++ c :: post) = PErr.
+Proof. exact parse_inner_ws_rejected. Qed.
+
+(* non-vacuity: "1d 2h" and " 1d" satisfy the premises and are errors; "1d " and " " are accepted *)
+Example C18_parse_rejects_example :
+  is_ws 32 = true /\ ~ Forall (fun d => is_digit d = true) [50; 104] /\
+  parse ([49; 100] ++ 32 :: [50; 104]) = PErr /\ parse (32 :: [49; 100]) = PErr /\
+  parse [49; 100; 32] = POk 0 86400000000000 /\ parse [32] = POk 0 0 /\
+  in_language [49; 100; 32].
+Proof.
+  split; [reflexivity|]. split.
+  { intros H. inversion H as [|? ? _ H2]; subst. inversion H2 as [|? ? H3 _]; subst. discriminate H3. }
+  split; [vm_compute; reflexivity|]. split; [vm_compute; reflexivity|].
+  split; [vm_compute; reflexivity|]. split; [vm_compute; reflexivity|].
+  exists [mk_term None [49] Ud], [32]. split; [reflexivity|]. split.
+  { repeat constructor; discriminate. }
+  right. exists 32, []. split; [reflexivity|]. split; [constructor|]. intros _. reflexivity.
+Qed.
+
 (* (3) date-time text.  The calendar used by the text model is exact: for EVERY day number,
        civil_from_days yields a valid date and days_from_civil maps it back.                      *)
 Theorem C18_calendar_inverse :
@@ -71,9 +126,9 @@ Proof. exact civil_roundtrip. Qed.
    express (whole seconds unless the format has %f, midnight for the date-only formats 2 3 5 9,
    years 0..9999 for the formats 3 4 7 8 whose %Y is followed directly by digits), parsed back with
    the format given explicitly AND through the rule list of DateTime::parse(s, None).
-   NOT proved in full (see notes/C18.md); the two partial theorems below cover
-   (a) the default format, explicit and through the rule list, years 0000..9999;
-   (b) all 11 formats with the format given explicitly, years 0000..9999.                         *)
+   PROVED in full below (C18_datetime_roundtrip, Proofs/ParseDT2.v); the two older `_partial` theorems
+   (the default format through the rule list; all 11 formats explicitly; both years 0000..9999) are kept
+   as the lemmas it was built from.                                                               *)
 Definition expressible (u : Z) (k : nat) (x : Z) (f : dtf) : Prop :=
   (has_frac k = false -> x mod per_sec u = 0) /\
   (date_only k = true -> x mod (86400 * per_sec u) = 0) /\
@@ -111,6 +166,75 @@ Theorem C18_datetime_roundtrip_listed_partial :
     parse_with u (fmt_k k) (render (fmt_k k) f) = Some x.
 Proof. exact dt_listed_roundtrip. Qed.
 
+(* ---- the full statement, proved (Proofs/ParseDT2.v) --------------------------------------------------- *)
+(* (b') explicit format, EVERY year chrono represents (-262143..262142; signed rendering `+12345`, `-0001`
+        outside 0000..9999) for the formats whose %Y is followed by a literal, a space or the end of the text
+        (0 1 2 5 6 9 10); 0000..9999 for the formats 3 4 7 8 whose %Y is followed directly by digits *)
+Theorem C18_datetime_roundtrip_listed_all_years :
+  forall u k x f,
+    unit_code u -> (k < 11)%nat -> in_i64 x = true -> x <> i64_min ->
+    fields_of_instant u x = Some f ->
+    (y4 k = true -> 0 <= f_y f <= 9999) ->
+    (has_frac k = false -> x mod per_sec u = 0) ->
+    (date_only k = true -> x mod (86400 * per_sec u) = 0) ->
+    dt_format u (fmt_k k) x = Ok (render (fmt_k k) f) /\
+    parse_with u (fmt_k k) (render (fmt_k k) f) = Some x.
+Proof. exact dt_listed_roundtrip_signed. Qed.
+
+(* (a') no earlier rule of TIME_RULE_VEC reads a text rendered with format k differently: each of the 55 rule
+        pairs j < k rejects the text or returns the same instant ... *)
+Theorem C18_earlier_rule_unambiguous :
+  forall u j k x f,
+    unit_code u -> (j < k)%nat -> (k < 11)%nat ->
+    fields_of_instant u x = Some f -> (y4 k = true -> 0 <= f_y f <= 9999) ->
+    parse_with u (fmt_k k) (render (fmt_k k) f) = Some x ->
+    parse_with u (fmt_k j) (render (fmt_k k) f) = None
+    \/ parse_with u (fmt_k j) (render (fmt_k k) f) = Some x.
+Proof. exact earlier_rule_unambiguous. Qed.
+(* ... in fact 53 pairs reject (for every parser state p) and only (4,7), (6,8) accept — with the same meaning *)
+Theorem C18_earlier_rule_rejects :
+  forall j k f p,
+    (j < k)%nat -> (k < 11)%nat -> same_pair j k = false ->
+    year_in_range (f_y f) -> (y4 k = true -> 0 <= f_y f <= 9999) ->
+    parse_items (fmt_k j) (render (fmt_k k) f) p = None.
+Proof. exact earlier_rule_rejects. Qed.
+(* the abstraction behind it is sound for EVERY text and rule: a text a rule accepts is accepted on its
+   character classes (so a syntactic rejection on classes is a rejection by the parser) *)
+Theorem C18_class_abstraction_sound :
+  forall items s p p', parse_items items s p = Some p' -> csyn items (map cls_of s) = true.
+Proof. exact parse_items_csyn. Qed.
+
+(* the full statement *)
+Theorem C18_datetime_roundtrip : C18_datetime_roundtrip_full_statement.
+Proof.
+  intros u k x f Hu Hk Hx Hn Hf (H1 & H2 & H3). apply dt_full_roundtrip; assumption.
+Qed.
+
+(* non-vacuity of the signed branch and of the rule list for a non-default format: year -1 through
+   "%Y-%m-%d" (rule 2; rules 0 and 1 must reject) and year 10000 through "%Y/%m/%d" (rule 9) *)
+Example C18_datetime_signed_example :
+  fields_of_instant 0 (-62198755200) = Some (mk_dtf (-1) 1 1 0 0 0 0) /\
+  render (fmt_k 2) (mk_dtf (-1) 1 1 0 0 0 0) = [45;48;48;48;49;45;48;49;45;48;49] /\
+  dt_parse 0 [45;48;48;48;49;45;48;49;45;48;49] = Some (-62198755200) /\
+  fields_of_instant 1 253402300800000 = Some (mk_dtf 10000 1 1 0 0 0 0) /\
+  render (fmt_k 9) (mk_dtf 10000 1 1 0 0 0 0) = [43;49;48;48;48;48;47;48;49;47;48;49] /\
+  dt_parse 1 [43;49;48;48;48;48;47;48;49;47;48;49] = Some 253402300800000.
+Proof. exact signed_year_example. Qed.
+(* non-vacuity of the same-meaning pairs: "20200101123456" is read by rule 4 ("%Y%m%d %H%M%S", the space
+   matching nothing) before rule 7 gets to see it, with the same result *)
+Example C18_same_pair_example :
+  let f := mk_dtf 2020 1 1 12 34 56 0 in
+  render (fmt_k 7) f = [50;48;50;48;48;49;48;49;49;50;51;52;53;54] /\
+  parse_with 0 (fmt_k 4) (render (fmt_k 7) f) = Some 1577882096 /\
+  parse_with 0 (fmt_k 7) (render (fmt_k 7) f) = Some 1577882096 /\
+  same_pair 4 7 = true /\ same_pair 3 7 = false /\
+  expressible 0 7 1577882096 f.
+Proof.
+  cbv zeta. do 5 (split; [vm_compute; reflexivity|]).
+  unfold expressible. cbn [has_frac date_only f_y]. split; [intros _; reflexivity|].
+  split; [discriminate|]. intros _. lia.
+Qed.
+
 (* non-vacuity of (b): 2020-01-01 12:34:56 in seconds through "%d/%m/%Y%H%M%S" (rule 8, one of the
    two repaired formats) and 2020-01-01 in milliseconds through "%Y%m%d" (rule 3) *)
 Example C18_datetime_listed_example :
@@ -142,3 +266,10 @@ Print Assumptions C18_wellformed.
 Print Assumptions C18_calendar_inverse.
 Print Assumptions C18_datetime_roundtrip_partial.
 Print Assumptions C18_datetime_roundtrip_listed_partial.
+Print Assumptions C18_parse_accepts_grammar.
+Print Assumptions C18_parse_rejects.
+Print Assumptions C18_parse_whitespace_rejected.
+Print Assumptions C18_datetime_roundtrip_listed_all_years.
+Print Assumptions C18_earlier_rule_unambiguous.
+Print Assumptions C18_class_abstraction_sound.
+Print Assumptions C18_datetime_roundtrip.
